@@ -129,6 +129,8 @@ def c03(p, obs):
     if obs.get('build') != 'ok' or p['op'] == 'cycle':
         return out
     it, items, keys = obs['iter'], obs['items'], obs['keys']
+    if 'keys2' in obs and obs['keys2'] != keys:
+        out.append(('keys_changed_on_second_call', {'first': keys, 'second': obs['keys2']}))
     # items(): either refuses loudly or pairs every yielded example with a key
     if items['err'] is None and it['err'] is None:
         if len(items['vals']) != len(it['vals']):
